@@ -2,14 +2,21 @@ import IgrisModel.Common.Proto
 import IgrisModel.C02.Model
 import IgrisModel.C02.FlatVec
 import IgrisModel.C02.Exc
+import IgrisModel.C02.Alloc
 open Igris.Proto Igris.C02
 
 inductive Mode where
   | idle
   | vec (portable tracked : Bool) (s : St)
   | faulted
+  | eqx (ty : String)   -- comparison with an element type whose == is not the equality of the bytes
   | flat (ltM ltS : Int → Int → Bool) (m : FMap) (s : FSet)   -- comparator of the map, of the set
       (vm : Option (VMap × Ledger)) (vs : Option (VSet × Ledger)) -- the same containers OVER THE SLOT-MODEL VECTOR (none = faulted)
+
+def nat? (s : String) : Option Nat := s.toNat?
+def int? (s : String) : Option Int := s.toInt?
+
+def ints? (ws : List String) : Option (List Int) := ws.mapM int?
 
 def showVec (v : Vec) : String :=
   let body :=
@@ -21,7 +28,96 @@ def showVec (v : Vec) : String :=
         | some .moved => "moved"
         | some .raw => "raw"
         | none => "oob"
-  s!"{v.size}/{v.cap}:" ++ (if body.isEmpty then "-" else ",".intercalate body)
+  -- round 3: the raw capacity is not part of the compared line (see `capVerdict`)
+  s!"{v.size}:" ++ (if body.isEmpty then "-" else ",".intercalate body)
+
+/-- what std::vector's contract fixes about capacity, evaluated on the model's own state before / after the
+    operation (the harness evaluates the same on the real object): capacity >= size; an operation that grows in
+    place never shrinks the capacity, reallocates only when the required size exceeds the old capacity, and
+    reserve(n) ends with capacity >= n; an operation that does not grow leaves the block alone -/
+def capVerdict (s s' : St) (op : Op) (threw : Bool) : String :=
+  if !([0, 1, 2].all fun i => decide ((s'.regs i).size ≤ (s'.regs i).cap)) then "BAD-capacity<size"
+  else if threw then "ok"
+  else
+    let grow (r need : Nat) (resv : Option Nat) : String :=
+      let v := s.regs r; let v' := s'.regs r
+      if v'.cap < v.cap then "BAD-shrunk"
+      else if (match resv with | some n => decide (v'.cap < n) | none => false) then "BAD-reserve-too-small"
+      else if need ≤ v.cap && (s'.led.alloc != s.led.alloc || s'.led.dealloc != s.led.dealloc) then "BAD-reallocated-inside-capacity"
+      else "ok"
+    let same (r : Nat) : String :=
+      if (s'.regs r).cap != (s.regs r).cap || s'.led.alloc != s.led.alloc || s'.led.dealloc != s.led.dealloc then "BAD-block-changed" else "ok"
+    match op with
+    | .emplaceBack r _ | .emplace r _ _ | .insertSorted r _ | .insertRange r _ _ => grow r (s'.regs r).size none
+    | .resize r n => grow r n none
+    | .reserve r n => grow r n (some n)
+    | .popBack r | .erase r _ _ | .eraseTo r _ | .clear r | .eq r _ | .ne r _ | .lt r _ | .at r _ | .index r _
+    | .frontBack r | .iter r => same r
+    | _ => "ok"
+
+/-- constructed - destroyed objects of the operation = change of the number of elements -/
+def ledVerdict (tracked : Bool) (s s' : St) : String :=
+  let tot (x : St) : Nat := (x.regs 0).size + (x.regs 1).size + (x.regs 2).size
+  if !tracked then "ok"
+  else if ((s'.led.made : Int) - s.led.made) - ((s'.led.dtor : Int) - s.led.dtor) == (tot s' : Int) - tot s then "ok" else "BAD"
+
+def showState (t : Bool) (s s' : St) (op : Op) (threw : Bool) : String :=
+  s!"{showVec (s'.regs 0)} {showVec (s'.regs 1)} {showVec (s'.regs 2)} cap={capVerdict s s' op threw} led={ledVerdict t s s'}"
+
+/-- after a failed allocation: the registers an in-place operation leaves must be the ones it found (strong
+    guarantee: block, capacity, size, contents); copy assignment / the constructors leave an empty vector -/
+def sameVec (a b : Vec) : Bool :=
+  a.size == b.size && a.cap == b.cap && a.data.isSome == b.data.isSome &&
+    (match a.data, b.data with
+     | some x, some y => x.n == y.n && (List.range x.n).all fun i => x.s i == y.s i
+     | _, _ => true)
+
+def afterFailureOk (s s' : St) (op : Op) : Bool :=
+  match op with
+  | .copyAssign d _ | .copyCtor d _ | .rangeCtor d _ _ _ | .sizeCtor d _ | .listCtor d _ =>
+    (s'.regs d).size == 0 && (s'.regs d).cap == 0 && (s'.regs d).data.isNone &&
+      [0, 1, 2].all fun i => i == d || sameVec (s.regs i) (s'.regs i)
+  | _ => [0, 1, 2].all fun i => sameVec (s.regs i) (s'.regs i)
+
+/-- element relations of the `eqx` cases on the element CODES the harness decodes (`ne` = the type's !=,
+    `lt` = its <) -/
+def relOf : String → Option ((Int → Int → Bool) × (Int → Int → Bool))
+  -- double / float: 0 = +0.0, 1 = -0.0, 2 = NaN, c >= 3 = c - 2
+  | "dbl" | "flt" =>
+    let value (c : Int) : Int := if c ≤ 1 then 0 else c - 2
+    some (fun a b => a == 2 || b == 2 || value a != value b,
+          fun a b => a != 2 && b != 2 && decide (value a < value b))
+  -- records: the code is 10 * id + note, == / < look at the id only (Pad: the low digit selects the padding bytes)
+  | "rec" | "pad" => some (fun a b => a / 10 != b / 10, fun a b => decide (a / 10 < b / 10))
+  -- a bool-like byte: every non-zero byte is "set"
+  | "flag" => some (fun a b => (a != 0) != (b != 0), fun a b => a == 0 && b != 0)
+  | _ => none
+
+def splitBar : List String → List String × List String
+  | [] => ([], [])
+  | "|" :: r => ([], r)
+  | x :: r => let (a, b) := splitBar r; (x :: a, b)
+
+def bit (b : Bool) : String := if b then "1" else "0"
+
+/-- `cmpx a… | b…` on the slot model: the two vectors are built by the range constructor, compared by the
+    transcribed loops with the element type's relations -/
+def cmpx (ty : String) (ws : List String) : String :=
+  match relOf ty, splitBar ws with
+  | some (ne, lt), (wa, wb) =>
+    match ints? wa, ints? wb with
+    | some xa, some xb =>
+      match listCtor xa {}, listCtor xb {} with
+      | some (a, _), some (b, _) =>
+        match copyCtor false a {} with
+        | some (ca, _) =>
+          match vecEqBy ne a b, vecLtBy lt a b, vecEqBy ne a a, vecEqBy ne ca a, vecEqBy ne b a with
+          | some e, some l, some sf, some cp, some rv => bit e ++ bit (!e) ++ bit l ++ bit sf ++ bit cp ++ bit rv
+          | _, _, _, _, _ => "fault"
+        | none => "fault"
+      | _, _ => "fault"
+    | _, _ => "bad-op"
+  | _, _ => "bad-op"
 
 def showEv (tracked : Bool) (a b : Ledger) : String :=
   if tracked then
@@ -35,11 +131,6 @@ def showRet : Ret → String
   | .val x => toString x
   | .throw => "throw"
   | .pair x y => s!"{x},{y}"
-
-def nat? (s : String) : Option Nat := s.toNat?
-def int? (s : String) : Option Int := s.toInt?
-
-def ints? (ws : List String) : Option (List Int) := ws.mapM int?
 
 def parseOp : List String → Option (Op × Nat)   -- (operation, harness temporaries of an initializer list)
   | ["push", r, x] | ["eback", r, x] => do pure (.emplaceBack (← nat? r) (.val (← int? x)), 0)
@@ -219,14 +310,30 @@ def stepLine (st : Mode) (line : String) : Mode × String :=
     match cmpOf c with
     | some (ltM, ltS) => (.flat ltM ltS {} {} (some ({}, {})) (some ({}, {})), "ok")
     | none => (.idle, "bad-op")
+  | ["reset", "eqx", ty, var] =>
+    if (relOf ty).isSome ∧ (var = "v" ∨ var = "p") then (.eqx ty, "ok") else (.idle, "bad-op")
   | ["reset", ty, var] =>
     if (ty = "int" ∨ ty = "trk") ∧ (var = "v" ∨ var = "p") then
       (.vec (var = "p") (ty = "trk") St.init, "ok")
     else (.idle, "bad-op")
+  | ["premain"] => (st, "4:0,99,9,12 eq=1 cget=0,10 it=1>10;2>20; set=102")
+  | ["long", _, n] =>
+    -- closed form of the std::vector meaning of the long history (the slot model is not run on 80 000 elements):
+    -- values 7 i + 1, one insert of -5 at n/2, erase [10, n/4), 500 value-initialised elements appended
+    match n.toNat? with
+    | none => (st, "bad-op")
+    | some n =>
+      let full : Int := (List.range n).foldl (fun (a : Int) (i : Nat) => a + (7 * (i : Int) + 1)) 0
+      let cut : Int := ((List.range (n / 4)).drop 10).foldl (fun (a : Int) (i : Nat) => a + (7 * (i : Int) + 1)) 0
+      (st, s!"{n + 1 - (n / 4 - 10) + 500} {full - 5 - cut} 1")
   | ws =>
     match st with
     | .idle => (st, "bad-op")
     | .faulted => (st, "fault")
+    | .eqx ty =>
+      match ws with
+      | "cmpx" :: rest => (st, cmpx ty rest)
+      | _ => (st, "bad-op")
     | .flat ltM ltS m s vm vs =>
       match flatStep ltM ltS m s ws with
       | some (m, s, r, rm, rs) =>
@@ -239,9 +346,25 @@ def stepLine (st : Mode) (line : String) : Mode × String :=
         | none => (.faulted, "fault")
         | some s' =>
           let l := s'.led
-          let tot := if t then s!"{l.made},{l.dtor},{l.alloc},{l.dealloc}" else s!"-,-,{l.alloc},{l.dealloc}"
-          (.vec p t St.init, s!"end tot={tot} ev={showEv t s.led l}")
+          -- round 3: the balance, not the totals (they depend on the growth policy)
+          let bal := l.made == l.dtor && l.alloc == l.dealloc
+          (.vec p t St.init, s!"end bal={if bal then "ok" else "BAD"}")
+      else if ws = ["widths", "0"] then
+        -- the counters of the model are unbounded naturals; the code's are size_t (8 bytes), the object is
+        -- pointer + capacity + size (+ an empty allocator, padded to one more word)
+        -- (the std_portable.h copy declares `difference_type = int`)
+        (st, s!"size=8 cap=8 diff={if p then 4 else 8} idx=8 obj=4")
       else
+        -- `a <k> <op …>` / `al <n> <op …>`: the operation runs with an allocation failure armed (Alloc.lean); after
+        -- a failure the state must be the one the strong guarantee demands and the operation is run again unarmed
+        let ws0 := ws
+        let (af, ws) : Option AF × List String :=
+          match ws with
+          | "a" :: k :: rest => (k.toNat?.map AF.kth, rest)
+          | "al" :: k :: rest => (k.toNat?.map AF.above, rest)
+          | "alx" :: k :: rest => (k.toNat?.map AF.above, rest)
+          | _ => (none, ws)
+        let noRetry := ws0.head? == some "alx"
         -- `x <k> <op …>`: the operation runs with the exception fuse k (Exc.lean)
         let (fz, ws) : Option Nat × List String :=
           match ws with
@@ -250,13 +373,28 @@ def stepLine (st : Mode) (line : String) : Mode × String :=
         match parseOp ws with
         | none => (st, "bad-op")
         | some (op, temps) =>
+          let s0 := s
+          let (s, afnote, dead) : St × String × Bool :=
+            match af with
+            | none => (s, "", false)
+            | some af =>
+              match stepA false p s af op with
+              | .fault => (s, "", true)
+              | .ok _ => (s, " af=ok", false)
+              | .threw (s1, _) => (s1, if afterFailureOk s s1 op then " af=ok" else " af=BAD", false)
+          if dead then (.faulted, "fault") else
+          if noRetry then
+            -- a request no allocator grants: refused, nothing changed, no retry
+            (.vec p t s, (if afnote == " af=ok" && (match af with | some af => allocFails s0 af op | none => false)
+              then s!"badalloc {showState t s0 s op true}" else "not-refused"))
+          else
           match stepX p s fz op with
           | .fault => (.faulted, "fault")
           | .threw (s', _) =>
-            (.vec p t s', s!"threw {showVec (s'.regs 0)} {showVec (s'.regs 1)} {showVec (s'.regs 2)} ev={showEv t s.led s'.led}")
+            (.vec p t s', s!"threw {showState t s s' op true}" ++ afnote)
           | .ok (s', r) =>
             -- the backing array of an initializer list: `temps` constructions and destructions by the caller
             let s' : St := ⟨s'.regs, (s'.led.addCtor temps).addDtor temps⟩
-            (.vec p t s', s!"{showRet r} {showVec (s'.regs 0)} {showVec (s'.regs 1)} {showVec (s'.regs 2)} ev={showEv t s.led s'.led}")
+            (.vec p t s', s!"{showRet r} {showState t s s' op false}" ++ afnote)
 
 def main : IO Unit := run Mode.idle stepLine
